@@ -41,7 +41,7 @@ var ltMutants = []map[string]string{
 	{"WithCopy": `"append"`, "MaxCores": "4", "MaxLoggers": "5", "MaxMut": "0"},
 }
 
-var ltKinds = []string{"json", "console", "observer", "tee", "sampler", "hooked", "inc", "lazyroot", "tee-of-with"}
+var ltKinds = []string{"json", "console", "observer", "tee", "sampler", "hooked", "inc", "lazyroot", "tee-of-with", "tee-dynamic"}
 
 func checkC07(c *Ctx) {
 	c.Assume("field values are Stringers reading one shared mutable cell, so the moment of evaluation is observable on encoding cores (JSON, console and wrappers around them); the observer core stores fields unevaluated, so only keys and order are compared there")
@@ -129,7 +129,7 @@ func checkC07(c *Ctx) {
 	runLazyOnce(c, "C07/", func(k string) bool { return k == "lazy/evaluated-twice" || k == "lazy/context" || k == "lazy/entry-missing" })
 	c.Set("histories_replayed", n)
 	c.Set("exhaustive", false)
-	c.Set("rule", "every history of exactly 4 (thorough 5) steps of LoggerTree.tla (3 cores / 4 loggers / single fields), plus 16 x 4,000 (thorough 40,000) seeded random histories of up to 9 steps with 5 cores / 6 loggers / field counts {1,2,3} / 2 mutations; each replayed on 2-3 of the 9 core kinds in rotation")
+	c.Set("rule", "every history of exactly 4 (thorough 5) steps of LoggerTree.tla (3 cores / 4 loggers / single fields), plus 16 x 4,000 (thorough 40,000) seeded random histories of up to 9 steps with 5 cores / 6 loggers / field counts {1,2,3} / 2 mutations; each replayed on 2-3 of the 10 core kinds in rotation")
 }
 
 type ltCell struct{ v int }
@@ -147,6 +147,7 @@ func (ltNsObj) MarshalLogObject(enc zapcore.ObjectEncoder) error {
 }
 
 type ltWorld struct {
+	dyn   *zap.AtomicLevel // tee-dynamic: the second branch is switched off while loggers are derived
 	kind  string
 	sinks []*jeSink
 	obs   []*observer.ObservedLogs
@@ -188,6 +189,15 @@ func ltBuild(kind string) *ltWorld {
 		w.core = c
 	case "lazyroot":
 		w.core = zapcore.NewLazyWith(jsonCore(), nil)
+	case "tee-dynamic":
+		// a branch whose (dynamic) level enables nothing while loggers are derived and is switched on for logging:
+		// its entries must carry the full context all the same
+		dyn := zap.NewAtomicLevelAt(zapcore.InvalidLevel)
+		w.dyn = &dyn
+		s := &jeSink{}
+		w.sinks = append(w.sinks, s)
+		dc := zapcore.NewCore(zapcore.NewJSONEncoder(zapcore.EncoderConfig{NameKey: "n", MessageKey: "m", SkipLineEnding: true}), s, dyn)
+		w.core = zapcore.NewTee(jsonCore(), dc)
 	case "tee-of-with":
 		w.core = zapcore.NewTee(jsonCore().With(nil), obsCore().With(nil), zapcore.NewNopCore())
 	default:
@@ -295,6 +305,9 @@ func replayLoggerTree(b ltBeh, kind string, seed int64) (finds []Finding) {
 		case "Mutate":
 			cell.v++
 		case "Log", "LogDisabled":
+			if w.dyn != nil {
+				w.dyn.SetLevel(zapcore.InfoLevel)
+			}
 			lvl := zapcore.InfoLevel
 			if op.Op == "LogDisabled" {
 				lvl = zapcore.DebugLevel
@@ -318,6 +331,9 @@ func replayLoggerTree(b ltBeh, kind string, seed int64) (finds []Finding) {
 					args = append(args, f)
 				}
 				parent.Sugar().Logw(lvl, "msg", args...)
+			}
+			if w.dyn != nil {
+				w.dyn.SetLevel(zapcore.InvalidLevel)
 			}
 		}
 	}
